@@ -15,14 +15,14 @@ from .seams import Sched, Seams, SimClock, SimInterrupt, FaultyStream
 
 PROPERTY = "C14"
 
-TRANSPARENT = ["evict_sf", "evict_runner", "evict_sv_memo", "evict_global_memo",
+TRANSPARENT = ["evict_sf", "evict_runner", "evict_sv_memo", "evict_global_memo", "evict_n3lo_memo",
                "clock_jump", "clock_back", "clock_freeze", "refresh_now"]
 FAILING = ["interrupt_conv", "interrupt_sv", "interrupt_console"]
 FAULT_SITE = {
     "evict_sf": "get_esf", "evict_runner": "get_esf", "evict_sv_memo": "get_esf",
     "evict_global_memo": "get_esf", "clock_jump": "clock", "clock_back": "clock",
     "clock_freeze": "clock", "refresh_now": "progress", "interrupt_conv": "conv",
-    "interrupt_sv": "sv_fill", "interrupt_console": "console",
+    "interrupt_sv": "sv_fill", "interrupt_console": "console", "evict_n3lo_memo": "n3lo_memo",
 }
 FAULT_CONFIGS = ["none", "transparent", "failing", "all"]
 
@@ -132,6 +132,8 @@ def gen_faults(rng, opkind, enabled, rate):
             call = int(math.exp(rng.random() * math.log(3000.0))) - 1
         elif site == "sv_fill":
             call = rng.randrange(0, 8)
+        elif site == "n3lo_memo":
+            call = int(rng.random() ** 2 * 60)
         elif site == "console":
             call = rng.randrange(0, 30)
         elif site == "clock":
@@ -151,14 +153,44 @@ def gen_faults(rng, opkind, enabled, rate):
 
 
 def generate(run_seed, fault_config="all", jit=False, budget=4.0, max_pto=2, allow_n3lo=False,
-             max_ops=12, meta=None):
+             max_ops=12, n3lo=False, meta=None):
     st = Streams(run_seed)
     cfg, ops_rng, frng = st["config"], st["ops"], st["faults"]
     th, ob = cards.gen_settings(cfg, max_pto=max_pto, allow_n3lo=allow_n3lo)
+    if n3lo:
+        # heavy-quark N3LO: the only path through the process-global grid memo
+        # (heavy.n3lo.interpolators, keyed by coefficient, nf and variation); DESIGN §2.5
+        th["PTO"] = 3
+        th.pop("PTODIS", None)
+        th["FNS"] = cards.wchoice(cfg, [("FFNS", 7), ("ZM-VFNS", 1), ("FONLL-FFNS", 2)])
+        th["NfFF"] = cfg.choice([3, 4])
+        th["RenScaleVar"] = False
+        th["FactScaleVar"] = False
+        th["TMC"] = cards.wchoice(cfg, [(0, 6), (2, 1)])
+        th["n3lo_cf_variation"] = cfg.choice([-1, 0, 0, 1])
+        ob["interpolation_xgrid"] = list(cards.GRIDS_LOG[0])
+        ob["interpolation_is_log"] = True
+        ob["interpolation_polynomial_degree"] = cfg.randint(1, 3)
+        if ob["prDIS"] == "CC":
+            ob["prDIS"] = cfg.choice(["EM", "NC"])
+            ob["ProjectileDIS"] = "electron"
     pools = cards.gen_pools(cfg, th, ob)
+    if n3lo:
+        # above the pair-production thresholds of charm and bottom, or the heavy terms vanish
+        qs = [50.0, 120.0, 300.0, 1000.0, 97.0, 30.0]
+        cfg.shuffle(qs)
+        xsn = [0.01, 0.1, 0.05, 0.2, 0.03, 0.3]
+        cfg.shuffle(xsn)
+        pools = {"x": xsn[:3], "Q2": qs[:3], "y": pools["y"]}
     # --- observable list under a cost budget (history + isolated references)
     nobs = cards.wchoice(cfg, [(1, 3), (2, 4), (3, 2), (4, 1)])
     names = cards.gen_obs_names(cfg, th, ob, nobs)
+    if n3lo:
+        names = []
+        for _ in range(cfg.randint(1, 3)):
+            nm = cfg.choice(["F2_charm", "FL_charm", "F2_total", "FL_total", "F2_bottom", "F2_light", "XSHERANC_charm"])
+            if nm not in names:
+                names.append(nm)
     base = []
     spent = 0.0
     for name in names:
@@ -184,10 +216,14 @@ def generate(run_seed, fault_config="all", jit=False, budget=4.0, max_pto=2, all
         settings["S1"] = {"theory": th1, "obs": ob1}
         pools1 = pools
         runners["R2"] = ("S1", _variant(cfg, base, th1, ob1, pools1))
-    if allow_n3lo and th["PTO"] >= 3 and "R2" not in runners:
+    if (allow_n3lo or n3lo) and th["PTO"] >= 3 and "R2" not in runners:
         th1, ob1 = copy.deepcopy(th), copy.deepcopy(ob)
-        th1["NfFF"] = {3: 4, 4: 3, 5: 4}[th["NfFF"]]
-        th1["n3lo_cf_variation"] = cfg.choice([-1, 0, 1])
+        if cfg.random() < 0.5:
+            th1["NfFF"] = {3: 4, 4: 3, 5: 4}[th["NfFF"]]
+            th1["n3lo_cf_variation"] = cfg.choice([-1, 0, 1])
+        else:
+            # same coefficient and nf, another variation of the approximate N3LO terms
+            th1["n3lo_cf_variation"] = cfg.choice([v for v in (-1, 0, 1) if v != th["n3lo_cf_variation"]])
         settings["S1"] = {"theory": th1, "obs": ob1}
         runners["R2"] = ("S1", copy.deepcopy(base))
 
@@ -694,9 +730,9 @@ class Execution:
                                    f"request raised {e}; every isolated point returns a result")
                     return
                 if e not in types:
-                    self.violation("wrong-exception-type", i, [rq["scope"][0][0]],
-                                   f"request raised {e}; isolated points raise {sorted(types)}")
-                    return
+                    # counted, not judged: the property speaks about returned operators, and both the
+                    # history and the isolated request reject; which exception class is used is not promised
+                    self.probes["rejected_with_other_exception_type"] += 1
 
     def _name_ref(self, s, n):
         # reference for an observable name with an empty point list
